@@ -2,7 +2,8 @@
 (* C09, Tier-A trace validation of photon::channel<T> (thread/go.h), harness/h_gochan.cpp.                                *)
 (* The recorded history must be a behaviour of the ABSTRACT channel: a bag `chan` of values that are in the channel,      *)
 (* every call taking effect at instants between its Inv and its Resp.                                                     *)
-(*   send / try_send(v) = true  <=> v entered the channel at one instant (Put), on a channel that was not closed then;    *)
+(*   send / try_send(v) = true  <=> v entered the channel at one instant (Put); a call invoked after close() took effect  *)
+(*        cannot enter (a call that was already pending when close() took effect may still enter);                        *)
 (*   recv / try_recv = (true,v) <=> v left the channel at one instant (Take); v was in the channel (so it was given to a   *)
 (*        send, is delivered once) and no earlier value of the same sender was still in it (per-sender order);             *)
 (*   send() = false only if the channel is closed by then or the call had a finite timeout that elapsed (dt >= us);        *)
@@ -20,9 +21,9 @@
 (*   A Hang event has no action.                                                                                           *)
 (* Known-finding switches (environment variables, default off; they only ADD behaviours and are used to classify an       *)
 (* execution that the default specification rejects):                                                                     *)
-(*   KF_F3=1  unbuffered only, and only from the moment a send / try_send is invoked while another one is pending or a     *)
-(*            value is still in the slot ("crowded"): a value in the channel may vanish (Drop) and the Settle conditions   *)
-(*            for cap = 0 are waived.                                                                                      *)
+(*   KF_F3=1  unbuffered only, and only from the moment a send / try_send is invoked while another one is pending, or a    *)
+(*            value enters while another value is still in the channel ("crowded"): a value in the channel may vanish     *)
+(*            (Drop) and the Settle conditions for cap = 0 are waived.                                                     *)
 (*   KF_LW=1  buffered, > 1 vCPU: a sleeping receiver (sender) is tolerated although an item (a free slot) exists if a     *)
 (*            Put (Take) took effect while its call was pending (it registered as waiter too late to be signalled).        *)
 (*   KF_CL=1  buffered, > 1 vCPU: a thread asleep after close() is tolerated if close() took effect while its call was      *)
@@ -35,7 +36,7 @@ KF_F3 == "KF_F3" \in DOMAIN IOEnv /\ IOEnv.KF_F3 = "1"
 KF_LW == "KF_LW" \in DOMAIN IOEnv /\ IOEnv.KF_LW = "1"
 KF_CL == "KF_CL" \in DOMAIN IOEnv /\ IOEnv.KF_CL = "1"
 KF_DR == "KF_DR" \in DOMAIN IOEnv /\ IOEnv.KF_DR = "1"
-T == (1..12) \cup {91}
+T == (1..8) \cup {91}
 TO_INF == 2
 \* ph: "inv" invoked, "put" value entered, "unput" value withdrawn, "lin" took effect (recv: took `got` / saw closed+empty; close)
 NoOp == [op |-> "none", ph |-> "none", v |-> 0, to |-> 0, us |-> 0, got |-> 0, raced |-> FALSE, craced |-> FALSE]
@@ -44,7 +45,7 @@ VARIABLES l, cap, vcpus, chan, closed, pend, kicked, crowded,
 vars == <<l, cap, vcpus, chan, closed, pend, kicked, crowded, exno, honest>>
 Init == l = 1 /\ cap = 0 /\ vcpus = 1 /\ chan = {} /\ closed = FALSE /\ pend = [t \in T |-> NoOp] /\ kicked = {} /\ crowded = FALSE
         /\ exno = 0 /\ honest = TRUE /\ TLCSet(1, 0) /\ TLCSet(2, {})
-Ev(e) == l <= Len(Tr) /\ Tr[l].e = e /\ l' = l + 1 /\ UNCHANGED <<exno, honest>>
+Ev(e) == honest /\ l <= Len(Tr) /\ Tr[l].e = e /\ l' = l + 1 /\ UNCHANGED <<exno, honest>>
 R == Tr[l]
 Sender(v) == v \div 100
 Sends == {"send", "try_send"}
@@ -57,34 +58,37 @@ Reset == /\ l <= Len(Tr) /\ Tr[l].e = "Reset" /\ l' = l + 1 /\ Mark /\ exno' = e
          /\ kicked' = {} /\ crowded' = FALSE
 Inv == /\ Ev("Inv") /\ pend[R.t].op = "none"
        /\ pend' = [pend EXCEPT ![R.t] = [NoOp EXCEPT !.op = R.op, !.ph = "inv", !.v = R.v, !.to = R.to, !.us = R.us]]
-       /\ crowded' = (crowded \/ (cap = 0 /\ R.op \in Sends /\ (chan # {} \/ \E u \in T : pend[u].op \in Sends)))
+       /\ crowded' = (crowded \/ (cap = 0 /\ R.op \in Sends /\ \E u \in T : pend[u].op \in Sends))
        /\ UNCHANGED <<cap, vcpus, chan, closed, kicked>>
-(* ---- silent steps: the instants at which calls take effect *)
-Put(t) == /\ pend[t].op \in Sends /\ pend[t].ph = "inv" /\ ~closed
+(* ---- silent steps: the instants at which calls take effect.  A silent step commutes with a following Inv event (an  *)
+(* invocation only adds a pending call), so silent steps are taken only when the next event is not an invocation.       *)
+Now == honest /\ l <= Len(Tr) /\ Tr[l].e # "Inv"
+Put(t) == /\ Now /\ pend[t].op \in Sends /\ pend[t].ph = "inv" /\ (~closed \/ pend[t].craced)
           /\ chan' = chan \cup {pend[t].v}
+          /\ crowded' = (crowded \/ (cap = 0 /\ chan # {}))
           /\ pend' = [u \in T |-> IF u = t THEN [pend[t] EXCEPT !.ph = "put"]
                                   ELSE IF pend[u].op \in Recvs /\ pend[u].ph = "inv" THEN [pend[u] EXCEPT !.raced = TRUE] ELSE pend[u]]
-          /\ UNCHANGED <<l, cap, vcpus, closed, kicked, crowded, exno, honest>>
-Unput(t) == /\ pend[t].op = "send" /\ pend[t].ph = "put" /\ pend[t].v \in chan
+          /\ UNCHANGED <<l, cap, vcpus, closed, kicked, exno, honest>>
+Unput(t) == /\ Now /\ pend[t].op = "send" /\ pend[t].ph = "put" /\ pend[t].v \in chan
             /\ chan' = chan \ {pend[t].v} /\ pend' = [pend EXCEPT ![t].ph = "unput"]
             /\ UNCHANGED <<l, cap, vcpus, closed, kicked, crowded, exno, honest>>
-Take(t) == /\ pend[t].op \in Recvs /\ pend[t].ph = "inv"
+Take(t) == /\ Now /\ pend[t].op \in Recvs /\ pend[t].ph = "inv"
            /\ \E v \in chan : /\ \A u \in chan : Sender(u) = Sender(v) => u >= v
                               /\ chan' = chan \ {v}
                               /\ pend' = [u \in T |-> IF u = t THEN [pend[t] EXCEPT !.ph = "lin", !.got = v]
                                                       ELSE IF pend[u].op = "send" /\ pend[u].ph = "inv" THEN [pend[u] EXCEPT !.raced = TRUE] ELSE pend[u]]
            /\ UNCHANGED <<l, cap, vcpus, closed, kicked, crowded, exno, honest>>
-SeeClosed(t) == /\ pend[t].op = "recv" /\ pend[t].ph = "inv" /\ closed
+SeeClosed(t) == /\ Now /\ pend[t].op = "recv" /\ pend[t].ph = "inv" /\ closed
                 /\ (chan = {} \/ (KF_DR /\ cap > 0 /\ Multi /\ pend[t].raced))
                 /\ pend' = [pend EXCEPT ![t].ph = "lin", ![t].got = 0]
                 /\ UNCHANGED <<l, cap, vcpus, chan, closed, kicked, crowded, exno, honest>>
-DoClose(t) == /\ pend[t].op = "close" /\ pend[t].ph = "inv"
+DoClose(t) == /\ Now /\ pend[t].op = "close" /\ pend[t].ph = "inv"
               /\ closed' = TRUE
               /\ pend' = [u \in T |-> IF u = t THEN [pend[t] EXCEPT !.ph = "lin"]
-                                      ELSE IF pend[u].op \in {"send", "recv"} THEN [pend[u] EXCEPT !.craced = TRUE] ELSE pend[u]]
+                                      ELSE IF pend[u].op # "none" THEN [pend[u] EXCEPT !.craced = TRUE] ELSE pend[u]]
               /\ UNCHANGED <<l, cap, vcpus, chan, kicked, crowded, exno, honest>>
 \* known finding F3: a value in the hand-off slot is overwritten / deleted by another sender
-Drop == /\ KF_F3 /\ cap = 0 /\ crowded
+Drop == /\ Now /\ KF_F3 /\ cap = 0 /\ crowded
         /\ \E v \in chan : chan' = chan \ {v}
         /\ UNCHANGED <<l, cap, vcpus, closed, pend, kicked, crowded, exno, honest>>
 (* ---- responses *)
@@ -127,21 +131,20 @@ Quiesce == /\ Ev("Quiesce") /\ \A t \in T : pend[t].op = "none"
            /\ chan = {} /\ R.size = 0
            /\ UNCHANGED <<cap, vcpus, chan, closed, pend, kicked, crowded>>
 Next == \/ Reset \/ Inv \/ Resp \/ Kick \/ Gate \/ Settle \/ Quiesce \/ Drop
-        \/ \E t \in T : Put(t) \/ Unput(t) \/ Take(t) \/ SeeClosed(t) \/ DoClose(t)
+        \/ (Now /\ \E t \in {u \in T : pend[u].op # "none"} : Put(t) \/ Unput(t) \/ Take(t) \/ SeeClosed(t) \/ DoClose(t))
 Spec == Init /\ [][Next]_vars
 NotAccepted == l <= Len(Tr)
 (* SpecAll (Trace_GoChannelA_all.cfg): judges EVERY execution of a file in one run.  At a Reset event the specification may  *)
-(* also skip the execution that begins there; executions are independent (Reset re-initialises the channel), so an          *)
+(* also skip the execution that begins there (Skip, then Walk over its events); executions are independent (Reset re-initialises the channel), so an          *)
 (* execution is a behaviour of the channel iff some behaviour reads it to its end un-skipped.  TLC explores the whole        *)
 (* (finite) graph; PostAll prints the set of executions that were read to their end.                                        *)
-ResetIdx == {i \in 1..Len(Tr) : Tr[i].e = "Reset"}
-NextResetFrom(i) == IF \E j \in ResetIdx : j >= i THEN CHOOSE j \in ResetIdx : j >= i /\ \A k \in ResetIdx : k >= i => k >= j
-                    ELSE Len(Tr) + 1
 Skip == /\ l <= Len(Tr) /\ Tr[l].e = "Reset" /\ Mark
-        /\ l' = NextResetFrom(l + 1) /\ exno' = exno + 1 /\ honest' = FALSE
-        /\ UNCHANGED <<cap, vcpus, chan, closed, pend, kicked, crowded>>
+        /\ l' = l + 1 /\ exno' = exno + 1 /\ honest' = FALSE
+        /\ cap' = 0 /\ vcpus' = 1 /\ chan' = {} /\ closed' = FALSE /\ pend' = [t \in T |-> NoOp] /\ kicked' = {} /\ crowded' = FALSE
+Walk == /\ ~honest /\ l <= Len(Tr) /\ Tr[l].e # "Reset" /\ l' = l + 1
+        /\ UNCHANGED <<cap, vcpus, chan, closed, pend, kicked, crowded, exno, honest>>
 Finish == /\ l = Len(Tr) + 1 /\ Mark /\ l' = l + 1 /\ UNCHANGED <<cap, vcpus, chan, closed, pend, kicked, crowded, exno, honest>>
-SpecAll == Init /\ [][Next \/ Skip \/ Finish]_vars
+SpecAll == Init /\ [][Next \/ Skip \/ Walk \/ Finish]_vars
 PostAll == PrintT(<<"OKSET", TLCGet(2)>>)
 Progress == TLCSet(1, IF TLCGet(1) < l THEN l ELSE TLCGet(1))
 Post == PrintT(<<"MAXL", TLCGet(1), Len(Tr)>>)
